@@ -392,7 +392,7 @@ theorem sim_step (S : List Instr) (hn : (setLabels S).Nodup) (fuel : Nat) (ih : 
           (by rw [effCount_append, hne]; simp [effCount, he]) hpos
           (by simpa [Nat.add_assoc, Nat.add_comm 1] using hex) os (tr ++ [n])
         simpa using this
-  | ret K n i c e hr =>
+  | ret K n fl' i c e hr =>
     intro pre post ex hS hne hpos hex os tr
     cases fuel with
     | zero => rw [runList_zero]; exact out_noFuel
@@ -408,7 +408,7 @@ theorem sim_step (S : List Instr) (hn : (setLabels S).Nodup) (fuel : Nat) (ih : 
           rw [effIdx (S := S) (pre := pre) (rest := (i :: c) ++ post) (by rw [hS]; simp), hne]
         unfold Out
         exact ⟨1, fun m => by rw [Nat.add_comm, jstep_ret S hg hr m os tr, hidx]⟩
-  | brk n lb le c e =>
+  | brk n fl' lb le c e =>
     intro pre post ex hS hne hpos hex os tr
     cases fuel with
     | zero => rw [runList_zero]; exact out_noFuel
@@ -422,7 +422,7 @@ theorem sim_step (S : List Instr) (hn : (setLabels S).Nodup) (fuel : Nat) (ih : 
         obtain ⟨pe, hpe⟩ := hpos.end_ lb le rfl
         unfold Out
         exact ⟨1, lb, le, pe, rfl, hpe, fun m => by rw [Nat.add_comm]; exact jstep_jump S (getS hS) hpe m os tr⟩
-  | cont n lb le b c e =>
+  | cont n fl' lb le b c e =>
     intro pre post ex hS hne hpos hex os tr
     cases fuel with
     | zero => rw [runList_zero]; exact out_noFuel
